@@ -212,10 +212,17 @@ def decode_template(raw):
 def format_node(n):
     """If n is (or wraps) a format_args expansion, return [("lit", s) | ("arg", expr node)] else None."""
     found = None
-    for x in walk(n):
+    stack = [n]
+    while stack:
+        x = stack.pop()
+        if not isinstance(x, dict):
+            continue
+        if x is not n and x.get("mac") and x["mac"][0] in ("format", "write", "writeln", "print", "println", "format_args", "panic"):
+            continue  # a nested formatting macro: its template is not ours
         if x.get("k") == "call" and x.get("def", "").startswith("std::fmt::Arguments"):
             found = x
             break
+        stack.extend(reversed(children(x)))
     if found is None:
         return None
     d = found["def"]
